@@ -2,9 +2,9 @@
 
   ./check selftest-determinism [--quick]   every engine: the same seeds run twice in different
                                            process/thread layouts must produce identical event-log digests
-  ./check selftest-sensitivity             deliberate property-breaking patches (seeded/*/patch.diff) applied to
-                                           /repo one at a time: the quick check of the property must report a
-                                           violation; /repo is restored after each
+  ./check selftest-sensitivity [ids]       deliberate property-breaking patches (seeded/*/patch.diff, sensitivity/*/patch.diff)
+                                           applied one at a time to a scratch worktree of /repo: the quick check of
+                                           the property, run against that worktree, must report a violation
 """
 import json, os, subprocess, sys, time, shutil, glob
 
@@ -75,6 +75,10 @@ def determinism(chk, quick):
 
 
 def sensitivity(chk, only=None):
+    """Every recorded property-breaking change is applied to a scratch worktree of /repo (under /tmp, removed afterwards together with
+    its build output); the quick checks named in its meta.json are run against that worktree (ZKSIM_ALT_REPO: cargo `paths` override,
+    separate build / replay / evidence directories) and must report a violation. /repo's working tree and /verif/evidence are not touched."""
+    import shutil
     verif = chk.VERIF
     rows = []
     rc = 0
@@ -86,31 +90,39 @@ def sensitivity(chk, only=None):
         if only and sid not in only:
             continue
         patch = os.path.join(d, "patch.diff")
-        st = subprocess.run(["git", "-C", "/repo", "status", "--porcelain"], capture_output=True, text=True).stdout.strip()
-        if st:
-            print("refusing: /repo has uncommitted changes")
+        wt = os.path.join("/tmp", "zksens-" + sid)
+        alt_build = os.path.join(verif, "build-alt", os.path.basename(wt))
+        subprocess.run(["git", "-C", "/repo", "worktree", "remove", "--force", wt], capture_output=True)
+        shutil.rmtree(wt, ignore_errors=True)
+        mk = subprocess.run(["git", "-C", "/repo", "worktree", "add", "-q", "--detach", wt, "HEAD"], capture_output=True, text=True)
+        if mk.returncode != 0:
+            print(f"{sid}: cannot create scratch worktree: {mk.stderr[:200]}")
             return 2
-        ap = subprocess.run(["git", "-C", "/repo", "apply", patch], capture_output=True, text=True)
-        if ap.returncode != 0:
-            print(f"{sid}: patch does not apply: {ap.stderr[:200]}")
-            rows.append((sid, "patch does not apply"))
-            rc = 1
-            continue
         try:
+            ap = subprocess.run(["git", "-C", wt, "apply", patch], capture_output=True, text=True)
+            if ap.returncode != 0:
+                print(f"{sid}: patch does not apply: {ap.stderr[:200]}")
+                rows.append((sid, "patch does not apply"))
+                rc = 1
+                continue
             caught_by = []
+            env = dict(os.environ)
+            env["ZKSIM_ALT_REPO"] = wt
             for prop in meta.get("expected_checks", [meta["property"]]):
-                p = subprocess.run([os.path.join(verif, "check"), prop, "--tier", "quick"], capture_output=True, text=True, cwd=verif)
+                p = subprocess.run([os.path.join(verif, "check"), prop, "--tier", "quick"], capture_output=True, text=True, cwd=verif, env=env)
                 viol = [l for l in p.stdout.splitlines() if l.startswith("VIOLATION")]
                 if p.returncode == 1 and viol:
                     caught_by.append(prop)
+                elif p.returncode == 2:
+                    print(f"{sid}: check {prop} ended with a harness error: {[l for l in p.stdout.splitlines() if 'HARNESS' in l or 'harness' in l][:3]}")
             rows.append((sid, "caught by " + ",".join(caught_by) if caught_by else "MISSED"))
             if not caught_by:
                 rc = 1
         finally:
-            subprocess.run(["git", "-C", "/repo", "checkout", "--", "."])
+            subprocess.run(["git", "-C", "/repo", "worktree", "remove", "--force", wt], capture_output=True)
+            shutil.rmtree(wt, ignore_errors=True)
+            shutil.rmtree(alt_build, ignore_errors=True)
         print(f"sensitivity {sid}: {rows[-1][1]}", flush=True)
-    # evidence files were rewritten by the runs on patched trees: they must be regenerated on the clean tree
-    print("note: re-run the affected checks on the unchanged tree to regenerate evidence files")
     return rc
 
 
